@@ -64,6 +64,18 @@ int main(int argc, char** argv) {
     bool ok = true; for (int i=0;i<2100;i++) { double x=a.getValue(), y=b.getValue(); if (memcmp(&x,&y,8)) ok=false; }
     printf(ok ? "NOT-REPRODUCED\n" : "REPRODUCED: Uniform sequence after setSeed depends on history\n"); return ok ? 0 : 1;
   }
+  if (m == "stream") {
+    // block generation (fill_array64, what Random uses) must continue the same stream as word-by-word generation
+    int seed = argc > 2 ? atoi(argv[2]) : 1234; bool ok = true; long first = -1;
+    SimTK_SFMT::SFMTData* a = SimTK_SFMT::createSFMTData(); SimTK_SFMT::SFMTData* b = SimTK_SFMT::createSFMTData();
+    SimTK_SFMT::init_gen_rand(seed, *a); SimTK_SFMT::init_gen_rand(seed, *b);
+    static uint64_t buf[1024];
+    for (int blk = 0; blk < 4; ++blk) { SimTK_SFMT::fill_array64(buf, 1024, *a);
+      for (int i = 0; i < 1024; ++i) { uint64_t r = SimTK_SFMT::gen_rand64(*b); if (r != buf[i]) { ok = false; if (first < 0) first = blk*1024L + i; } } }
+    Random::Uniform u(0,1); u.setSeed(seed); SimTK_SFMT::SFMTData* c = SimTK_SFMT::createSFMTData(); SimTK_SFMT::init_gen_rand(seed, *c);
+    for (int i = 0; i < 3000; ++i) { double x = u.getValue(), y = SimTK_SFMT::to_res53(SimTK_SFMT::gen_rand64(*c)); if (y >= 1.0) y = std::nextafter(1.0, 0.0); if (memcmp(&x,&y,8)) { ok = false; if (first < 0) first = i; } }
+    printf(ok ? "NOT-REPRODUCED\n" : "REPRODUCED: block generation diverges from the sequential SFMT stream at word %ld\n", first); return ok ? 0 : 1;
+  }
   if (m == "kat") {
     // supporting known-answer check: first five 32-bit outputs of reference SFMT-19937, seed 1234
     SimTK_SFMT::SFMTData* d = SimTK_SFMT::createSFMTData();
